@@ -73,6 +73,24 @@ CLAIMED = {
         "Trusted: client-go object tracker as the API server (wrapped to behave like the real client on errors), rapid. Real etcd / process death are replaced by abandoning the store.",
         "DESIGN.md 4/C19",
     ),
+    "C10": (
+        "model-based testing of create/update/delete histories on the real controller against a reference ownership map (rapid state machine)",
+        "Generated-input search: histories of cluster create/update (server names drawn from a pool with case variants, keeping the admission invariant), delete and duplicate deliveries on the real UpstreamClusterController; after every event every pool name x {as is, upper case, with port} must resolve (Manager.Get, tls.Config for a ClientHello with that SNI, SNIVerifyOptions) to the model's owner or nobody. Exploration.",
+        "Trusted: rapid, ECDSA test PKI, the ownership model. Real TLS handshakes and informer goroutines are replaced by library-level calls and direct event delivery.",
+        "DESIGN.md 4/C10",
+    ),
+    "C11": (
+        "differential testing against a fresh gateway over generated object-version histories incl. admission-race retries (rapid)",
+        "Generated-input search: histories of valid object versions for two clusters (fields and annotations added, changed, removed, restored; deletes; duplicates) optionally followed by an admission-race episode in which a failed version is re-delivered after newer versions; the fingerprint of the live gateway (public accessors) must equal that of a fresh controller given only the latest objects. Exploration.",
+        "Trusted: rapid, the fingerprint (it covers endpoints, disabled flags, routing on a probe set, schemas incl. behavioural limits, gates, logging, TLS material, server names, name resolution).",
+        "DESIGN.md 4/C11",
+    ),
+    "C16": (
+        "property-based testing of near-valid objects: totality under recover + accepted-implies-applicable through the real data plane + must-reject predicate (rapid)",
+        "Generated-input search: valid objects with 0-4 random edits (junk and plausible) are validated by the real admission plugin and ValidateUpstreamCluster; a panic is a violation; every accepted object is applied (CreateClusterInfo, Sync over a previous accepted object, fresh controller sync, smoke run, limiter server handler, gateway-side remote reconcile for global strategies) and must not fail or panic; accepted objects must not fall in the must-reject classes named by the statement. Exploration.",
+        "Trusted: rapid; the must-reject predicate is written from the statement's list only. Byte-level decoding is not fuzzed in the quick tier.",
+        "DESIGN.md 4/C16",
+    ),
 }
 
 PENDING = {}
